@@ -346,6 +346,7 @@ func runLeakCase(c *Ctx, tc tblCase, seed int64) (vs []rsV, evals int) {
 	n := 1 + r.Intn(6)
 	for i := 0; i < n; i++ {
 		evals++
+		Beat()
 		var it sstables.SSTableIteratorI
 		switch r.Intn(3) {
 		case 0:
@@ -411,6 +412,7 @@ func runLeakCase(c *Ctx, tc tblCase, seed int64) (vs []rsV, evals int) {
 		err4 = errors.Join(err4, w4.Close())
 	}
 	evals++
+	Beat()
 	if err != nil || err2 != nil || err3 != nil || err4 != nil {
 		add("recordio-reader-error|"+normErr(errors.Join(err, err2, err3, err4)), fmt.Sprint(err, err2, err3, err4))
 		return
@@ -425,6 +427,7 @@ func runLeakCase(c *Ctx, tc tblCase, seed int64) (vs []rsV, evals int) {
 	files := []string{sstables.IndexFileName, sstables.DataFileName, sstables.MetaFileName, sstables.BloomFileName}
 	for round := 0; round < 6; round++ {
 		evals++
+		Beat()
 		dmg := filepath.Join(dir, fmt.Sprintf("dmg%d", round))
 		if err := os.MkdirAll(dmg, 0o700); err != nil {
 			panic(err)
